@@ -137,6 +137,34 @@ func genC17(c *Ctx) {
 		}
 		c.Em.Emit(rec)
 	}
+	// ---------- float literals just beside the midpoint of two neighbouring floats (where an intermediate rounding to
+	// more than 53 bits followed by a second rounding goes the wrong way); written with 45 significant digits
+	for i := 0; i < n/2; i++ {
+		f := math.Float64frombits(uint64(0x3000000000000000) + uint64(c.Rng.Intn(1<<30))<<32 + uint64(c.Rng.Intn(1<<30)) + uint64(c.Rng.Intn(4)))
+		if math.IsInf(f, 0) || math.IsNaN(f) || f == 0 {
+			continue
+		}
+		next := math.Nextafter(f, math.Inf(1))
+		mid := new(big.Float).SetPrec(300).Add(new(big.Float).SetPrec(300).SetFloat64(f), new(big.Float).SetPrec(300).SetFloat64(next))
+		mid.Quo(mid, big.NewFloat(2))
+		eps := new(big.Float).SetPrec(300).Mul(mid, new(big.Float).SetPrec(300).SetMantExp(big.NewFloat(1), -70-c.Rng.Intn(20)))
+		if c.Rng.Bool() {
+			mid.Add(mid, eps)
+		} else {
+			mid.Sub(mid, eps)
+		}
+		plain := strings.Replace(mid.Text('e', 44), "e+", "e", 1)
+		if !strings.Contains(plain, ".") || !c.Mine() {
+			continue
+		}
+		want, err := strconv.ParseFloat(plain, 64)
+		o := c.It.Run(plain, "")
+		rec := Rec{Impl: o.Canon(), Src: plain, NT: true, Tags: []string{"float", "float-midpoint"}}
+		if fv, ok := o.Obj.(*object.PanFloat); !ok || err != nil || math.Float64bits(fv.Value) != math.Float64bits(want) {
+			rec.Oracle = fmt.Sprintf("float literal %s is not the nearest float %v", plain, want)
+		}
+		c.Em.Emit(rec)
+	}
 	// ---------- double-quoted strings
 	pieces := []string{"a", "Z", " ", "é", "日", "😀", "'", "#", "{", "}", "\\n", "\\t", "\\r", "\\\\", "\\\"", "\\a", "\\b", "\\f", "\\v",
 		"\\d", "\\q", "\\z", "\\'", "\\ ", "\\s", "\\e", "\\N", "\\-", "\\?",
